@@ -690,3 +690,67 @@ Definition serialize (memo:option (list pat)) (m:pmodule) : option (list N * lis
               | Some _ => serialize_with (fun p => pmem p ms) true m
               | None => None end
   end.
+
+(** * Checker-side well-formedness that the generator does not check (C02; theorems in PTerm/Compile.v) *)
+(** no static [ProofExp.instantiate] *)
+Fixpoint dynamic (t:pterm) : bool :=
+  match t with
+  | PMP a b => dynamic a && dynamic b
+  | PGen a _ | PDynInst a _ => dynamic a
+  | PInst _ _ => false
+  | _ => true
+  end.
+
+
+(** what the checker demands of a pattern under construction *)
+Fixpoint pat_wf (p:pat) : bool :=
+  match p with
+  | EVar _ | SVar _ | Sym _ => true
+  | MVar _ ef _ _ _ holes => negb (existsb (fun h => mem h ef) holes)        (* MetaVar well-formedness *)
+  | Imp l r | App l r => pat_wf l && pat_wf r
+  | Ex _ q => pat_wf q
+  | Mu X q => pat_wf q && pat_positive q X                                   (* D9a *)
+  | ESub q x plug => pat_wf q && pat_wf plug && (negb (is_redundant_subst p) && is_meta_head q)   (* D9b *)
+  | SSub q X plug => pat_wf q && pat_wf plug && (negb (is_redundant_subst p) && is_meta_head q)
+  end.
+
+(** the checker's [Instantiate] computes what the generator's [instantiate] advertised
+    (fails on: metavariable constraints violated by a plug -- D9d; a substitution the generator
+    dropped or applied without the checker's capture check -- D9c/D9d) *)
+Definition inst_agree (c:pat) (d:delta) : bool :=
+  match inst guards_sound c (rev (dkeys d)) (rev (dvals d)) with
+  | Some r => pat_eqb r (py_inst d c)
+  | None => false
+  end.
+
+(** exactly the places where the generator is laxer than the checker *)
+Fixpoint wf_for_checker (axs:list pat) (t:pterm) : bool :=
+  match t with
+  | PMP a b => wf_for_checker axs a && wf_for_checker axs b
+  | PGen a _ => wf_for_checker axs a
+  | PDynInst a d =>
+      wf_for_checker axs a &&
+      match d with
+      | [] => true
+      | _ => forallb pat_wf (dvals d) &&
+             match static_conc axs a with Some c => inst_agree c d | None => false end
+      end
+  | PInst a _ => wf_for_checker axs a
+  | _ => true
+  end.
+
+Fixpoint loads_in_axioms (t:pterm) (axs:list pat) : bool :=
+  match t with
+  | PMP a b => loads_in_axioms a axs && loads_in_axioms b axs
+  | PGen a _ | PDynInst a _ | PInst a _ => loads_in_axioms a axs
+  | PLoadAxiom p => pmem p axs
+  | _ => true
+  end.
+
+Definition proof_ok (axs:list pat) (t:pterm) : bool := dynamic t && wf_for_checker axs t && loads_in_axioms t axs.
+
+Definition module_ok (m:pmodule) : bool :=
+  forallb pat_wf (m_axioms m) && forallb pat_wf (m_claims m) &&
+  forallb (proof_ok (m_axioms m)) (m_proofs m) &&
+  Nat.eqb (length (m_claims m)) (length (m_proofs m)).      (* every declared claim is discharged *)
+
